@@ -65,8 +65,9 @@ static Verdict check_pairs(const Case& c, bool self_only) {
         if (a == U->standard) {
           if (!same_bits(nt, got, x)) return Verdict::fail(fmt("%s: Convert(%s, %s -> itself) in %s returned %s; the standard unit must be bit-exact", U->name, hexld(x).c_str(), U->unit_names[a], ntinfo(nt).name, hexld(got).c_str()));
         } else {
+          // the two legs form x*F+O and back: the largest magnitude necessarily formed is |x| + |O/F| (in the unit's own scale)
           Q scale = fabsq((Q)x);
-          if (A.affine) { Q s2 = fabsq(A.O / A.F); if (s2 > scale) scale = s2; }
+          if (A.affine) scale += fabsq(A.O / A.F);
           double e = err_ulps(nt, got, (Q)x, scale);
           if (e > 2.0) return Verdict::fail(fmt("%s: Convert(%s, %s -> itself) in %s returned %s: %.2f ulp from the input (allowed 2)", U->name, hexld(x).c_str(), U->unit_names[a], ntinfo(nt).name, hexld(got).c_str(), e));
         }
